@@ -85,6 +85,21 @@ func buildCalls(seed uint64, env *psEnv) []callSpec {
 			return sha([]byte(libStateDigest(env.bt, intp))) + fmt.Sprintf("/%v", err)
 		})
 	}
+	// every operator with typical operands: the objects it returns are probed
+	// (Probe/…) and written into (Scribble/…, not part of the isolation battery)
+	for vi, progs := range scribblePrograms(false) {
+		progs := progs
+		add(fmt.Sprintf("Probe/operands#%d", vi), func() string { return runBatch(env, progs) })
+	}
+	// the same programs one by one, with and without the writes, for the concurrent workload
+	for _, scribble := range []bool{false, true} {
+		for vi, progs := range scribblePrograms(scribble) {
+			for pi, p := range progs {
+				one := []string{p}
+				add(fmt.Sprintf("Single/%v/%d/%d", scribble, vi, pi), func() string { return runBatch(env, one) })
+			}
+		}
+	}
 	for i, b := range cmapFiles {
 		b := b
 		add(fmt.Sprintf("ReadCMap#%d", i), func() string { d, err := runEntry(env, kCMap, bytes.NewReader(b)); return d + fmt.Sprintf("/%v", err) })
@@ -127,6 +142,103 @@ func buildCalls(seed uint64, env *psEnv) []callSpec {
 		add(fmt.Sprintf("FromUnicode/U+%04X", r), func() string { return names.FromUnicode(r) })
 	}
 	return calls
+}
+
+// scribbleDef defines scr: write into a composite object (first and last
+// array slot, a new dictionary key, the first byte of a string).
+const scribbleDef = `/scr { dup type dup /arraytype eq
+  { pop dup length 0 ne { dup 0 /hacked put dup dup length 1 sub 42 put } if pop }
+  { dup /dicttype eq { pop dup /hacked 1 put pop } { /stringtype eq { dup length 0 ne { dup 0 88 put } if pop } { pop } ifelse } ifelse }
+  ifelse } def
+`
+
+var scribbleOperands = []string{"", "6", "/a", "(abc)", "[ 1 2 ]", "3 dict", "/CIDInit /ProcSet", "1183615869", "{ 1 2 }", "mark 1 2", "/StandardEncoding", "2 1"}
+
+// scribblePrograms returns, per operand variant, one program for every name
+// in systemdict (found at run time): the operands, the name and - with
+// scribble set - a loop that writes into every composite object left on the
+// operand stack. Further programs write into the values of the built-in
+// dictionaries.
+func scribblePrograms(scribble bool) [][]string {
+	probe := postscript.NewInterpreter()
+	var keys []string
+	for k := range probe.SystemDict {
+		keys = append(keys, string(k))
+	}
+	sort.Strings(keys)
+	tail := ""
+	if scribble {
+		tail = " count { scr } repeat"
+	}
+	var out [][]string
+	for _, args := range scribbleOperands {
+		var progs []string
+		for _, k := range keys {
+			// only programs that leave a composite object on the operand stack are of interest
+			t := postscript.NewInterpreter()
+			t.MaxOps = 20000
+			t.ExecuteString(args + " " + k)
+			composite := false
+			for _, o := range t.Stack {
+				switch o.(type) {
+				case postscript.Array, postscript.Procedure, postscript.Dict, postscript.String:
+					composite = true
+				}
+			}
+			if composite {
+				progs = append(progs, scribbleDef+args+" "+k+tail)
+			}
+		}
+		out = append(out, progs)
+	}
+	// the values held by the built-in dictionaries, one program per entry
+	var progs []string
+	cid, _ := probe.Resources["ProcSet"].(postscript.Dict)["CIDInit"].(postscript.Dict)
+	for _, d := range []struct {
+		expr string
+		dict postscript.Dict
+	}{{"errordict", probe.ErrorDict}, {"/CIDInit /ProcSet findresource", cid}, {"systemdict", probe.SystemDict}} {
+		var ks []string
+		for k := range d.dict {
+			if psName(string(k)) == string(k) {
+				ks = append(ks, string(k))
+			}
+		}
+		sort.Strings(ks)
+		for _, k := range ks {
+			if scribble {
+				progs = append(progs, scribbleDef+d.expr+" /"+k+" get scr")
+			} else {
+				progs = append(progs, d.expr+" /"+k+" get")
+			}
+		}
+	}
+	for _, d := range []string{"userdict", "FontDirectory", "1183615869 internaldict", "StandardEncoding", "errordict", "systemdict", "/CIDInit /ProcSet findresource"} {
+		if scribble {
+			progs = append(progs, scribbleDef+d+" scr")
+		} else {
+			progs = append(progs, d)
+		}
+	}
+	out = append(out, progs)
+	return out
+}
+
+// runBatch runs every program in a fresh interpreter and digests the final states.
+func runBatch(env *psEnv, progs []string) string {
+	var sb strings.Builder
+	for _, p := range progs {
+		intp := postscript.NewInterpreter()
+		intp.MaxOps = 20000
+		err := intp.ExecuteString(p)
+		// the objects of interest are on the operand stack
+		d := newLibDigester(env.bt)
+		for _, o := range intp.Stack {
+			d.obj(o)
+		}
+		fmt.Fprintf(&sb, "%s/%d/%v\n", d.sb.String(), len(intp.DictStack), err)
+	}
+	return sha([]byte(sb.String()))
 }
 
 // hostilePrograms returns programs that try to damage shared state.
@@ -186,14 +298,26 @@ func hostilePrograms(rng *rand.Rand) []string {
 		"1183615869 internaldict /secret (x) put",
 		"/CIDInit /ProcSet findresource dup /begincmap undefinedname put",
 	)
+	// write into the objects returned by operators and held by the built-in dictionaries
+	sp := scribblePrograms(true)
+	for i := 0; i < 24; i++ {
+		v := sp[rng.IntN(len(sp))]
+		if i%2 == 0 {
+			v = sp[len(sp)-1] // the values held by the built-in dictionaries
+		}
+		if len(v) > 0 {
+			out = append(out, v[rng.IntN(len(v))])
+		}
+	}
+	out = append(out, "matrix dup 0 42 put dup 5 /oops put", "6 array matrix copy dup 0 7 put pop matrix dup 0 9 put")
 	// append a failure half-way to some of them
 	for i := range out {
-		switch rng.IntN(4) {
-		case 0:
+		switch rng.IntN(12) {
+		case 0, 3, 4:
 			out[i] += "\n1 (a) add\n"
 		case 1:
 			out[i] += "\n{ } loop\n" // budget exceeded
-		case 2:
+		case 2, 5, 6:
 			out[i] += "\n} ) > \n"
 		}
 	}
@@ -222,6 +346,9 @@ func runC18(r *rt.Runner) {
 	battery := func() []string {
 		out := make([]string, len(calls))
 		for i, cs := range calls {
+			if strings.HasPrefix(cs.name, "Single/") {
+				continue // used by the concurrent workload only (half of them write into what they obtain)
+			}
 			out[i] = cs.run()
 		}
 		return out
@@ -256,13 +383,19 @@ func runC18(r *rt.Runner) {
 				c.Count("hostile programs run")
 			}
 			after := battery()
-			c.Runner().Count("probe calls evaluated", int64(len(after)))
+			nProbe := 0
+			for _, a := range after {
+				if a != "" {
+					nProbe++
+				}
+			}
+			c.Runner().Count("probe calls evaluated", int64(nProbe))
 			for i := range pristine {
 				if after[i] != pristine[i] {
 					c.Violation("isolation|"+strings.SplitN(calls[i].name, "#", 2)[0], fmt.Sprintf("after the hostile history the probe %s gives %s, in the pristine process it gave %s", calls[i].name, after[i], pristine[i]), "")
 				}
 			}
-			c.Nontrivial([]byte(strings.Join(progs, "\x00")), func() string { return fmt.Sprintf("%d hostile programs, then %d probe calls", len(progs), len(after)) })
+			c.Nontrivial([]byte(strings.Join(progs, "\x00")), func() string { return fmt.Sprintf("%d hostile programs, then %d probe calls", len(progs), nProbe) })
 		})
 	}
 
@@ -341,6 +474,13 @@ func c18Child(r *rt.Runner, calls []callSpec) {
 		return out
 	}
 	first := [][]int{idxOf("ToUnicode/dingbats/"), idxOf("ToUnicode/"), idxOf("FromUnicode/")}
+	singles := idxOf("Single/")
+	var base []int
+	for i, cs := range calls {
+		if !strings.HasPrefix(cs.name, "Single/") && !strings.HasPrefix(cs.name, "Probe/") {
+			base = append(base, i)
+		}
+	}
 	for g := 0; g < G; g++ {
 		done.Add(1)
 		go func(g int) {
@@ -352,7 +492,12 @@ func c18Child(r *rt.Runner, calls []callSpec) {
 			f := first[g%3]
 			seq = append(seq, f[rng.IntN(len(f))])
 			for len(seq) < n {
-				seq = append(seq, rng.IntN(len(calls)))
+				// half of the calls are single operator programs (results probed or written into)
+				if rng.IntN(2) == 0 {
+					seq = append(seq, singles[rng.IntN(len(singles))])
+				} else {
+					seq = append(seq, base[rng.IntN(len(base))])
+				}
 			}
 			start.Wait()
 			for _, ci := range seq {
@@ -364,8 +509,16 @@ func c18Child(r *rt.Runner, calls []callSpec) {
 	done.Wait()
 	// sequential reference, computed afterwards in the same process
 	refRes := make([]string, len(calls))
+	used := map[int]bool{}
+	for g := range results {
+		for _, rc := range results[g] {
+			used[rc.call] = true
+		}
+	}
 	for i, cs := range calls {
-		refRes[i] = cs.run()
+		if used[i] {
+			refRes[i] = cs.run()
+		}
 	}
 	total := 0
 	for g := range results {
